@@ -6,7 +6,7 @@ use super::c03::{hex, unhex};
 use std::str::FromStr;
 use temporal_rs::{Duration, Instant, MonthCode, PlainDate, PlainDateTime, PlainMonthDay, PlainTime, PlainYearMonth, UtcOffset};
 
-const TYPES: [&str; 9] = ["date", "datetime", "time", "yearmonth", "monthday", "instant", "duration", "offset", "monthcode"];
+const TYPES: [&str; 10] = ["date", "datetime", "time", "yearmonth", "monthday", "instant", "duration", "offset", "monthcode", "tz"];
 
 fn year(rng: &mut Rng) -> String {
     match rng.below(10) {
@@ -125,6 +125,15 @@ fn valid(rng: &mut Rng, ty: &str) -> String {
     match ty {
         "duration" => duration(rng),
         "offset" => offset(rng),
+        // a time zone string: an identifier (offset of minute precision, name), or any ISO string carrying a zone
+        "tz" => match rng.below(8) {
+            0 => offset(rng),
+            1 => rng.pick(&["UTC", "Z", "z", "America/New_York", "europe/paris", "Etc/GMT+5", "Etc/GMT-14", "1Bad/Name", "A", "_x/y.z", "GMT0", "EST5EDT", "+", "-", ""]).to_string(),
+            2 => format!("{}{}{}{}", rng.pick(&["T", "t", ""]), time(rng), offset(rng), annotations(rng)),
+            3 => format!("{}{}{}{}", year(rng), rng.pick(&["-", ""]), two(rng, 1, 12, 2), annotations(rng)),
+            4 => format!("{}{}{}{}{}", rng.pick(&["--", ""]), two(rng, 1, 12, 2), rng.pick(&["-", ""]), two(rng, 1, 31, 2), annotations(rng)),
+            _ => datetime(rng),
+        },
         "monthcode" => format!("M{}{}", two(rng, 1, 13, 2), rng.pick(&["", "", "L", "l", "LL"])),
         "time" => match rng.below(4) {
             0 => format!("{}{}", rng.pick(&["T", "t", ""]), time(rng)),
@@ -190,9 +199,13 @@ pub fn generate(rng: &mut Rng, thorough: bool) -> Vec<String> {
                 continue;
             }
             for s in [format!("{h:02}{m:02}"), format!("{h:02}:{m:02}"), format!("{h:02}-{m:02}"), format!("--{h:02}-{m:02}"), format!("--{h:02}{m:02}"), format!("T{h:02}{m:02}"), format!("{h:02}{m:02}[u-ca=iso8601]")] {
-                for ty in ["time", "monthday", "yearmonth"] {
+                for ty in ["time", "monthday", "yearmonth", "tz"] {
                     v.push(format!("p_{ty} {}", hex(s.as_bytes())));
                 }
+            }
+            // the same digit pairs followed by a short offset: `2020-01` is a year-month, not 20:20 at -01
+            for s in [format!("{h:02}{m:02}-01"), format!("{h:02}{m:02}+0130"), format!("{h:02}-{m:02}[+02:00]"), format!("{h:02}:{m:02}-01:30")] {
+                v.push(format!("p_tz {}", hex(s.as_bytes())));
             }
         }
     }
@@ -228,6 +241,10 @@ pub fn eval(t: &[&str]) -> Option<String> {
             let h: i32 = o[1..3].parse().unwrap();
             let m: i32 = o[4..6].parse().unwrap();
             (sign * (h * 60 + m)).to_string()
+        }),
+        "p_tz" => render(temporal_rs::TimeZone::try_from_str(s), |z| match z {
+            temporal_rs::TimeZone::IanaIdentifier(n) => format!("name {}", hex(n.as_bytes())),
+            temporal_rs::TimeZone::UtcOffset(_) => format!("offset {}", z.identifier().unwrap_or_default()),
         }),
         "p_monthcode" => render(MonthCode::from_str(s), |m| m.as_str().to_string()),
         _ => return None,
